@@ -1258,3 +1258,146 @@ def random_doc(rng, name):
 def random_docs(seed, n):
     rng = random.Random(seed * 7919 + 17)
     return [random_doc(rng, 'rnd%d' % i) for i in range(n)]
+
+
+# ------------------------------------------------------------------ literal schema (C20, fam/gen/coq/Lit.v; FORMAT.md section 4)
+#
+# What pilota-build's middle end sees of a document: rir types after resolve.rs (lower_type, lower_type_for_hash_key,
+# modify_ty_by_tags) and the literal ASTs with their paths resolved.  Written NEXT TO schema.txt (same item order, same
+# global names, so item indices agree); schema.txt itself is unchanged.
+
+def rty_tags(r, ann):
+    """resolve.rs modify_ty_by_tags (field / typedef / const annotations)"""
+    rt = ann.get('pilota.rust_type')
+    if r == ('string',) and rt == 'string':
+        r = ('stdstring',)
+    elif r == ('bytes',) and rt == 'vec':
+        r = ('bytesvec',)
+    if rt == 'btree':
+        def bt(x):
+            if x[0] == 'vec':
+                return ('vec', bt(x[1]))
+            if x[0] == 'set':
+                return ('btreeset', bt(x[1]))
+            if x[0] == 'map':
+                return ('btreemap', bt(x[1]), bt(x[2]))
+            return x
+        r = bt(r)
+    if ann.get('pilota.rust_wrapper_arc') == 'true':
+        def arc(x):
+            if x[0] in ('vec', 'set', 'btreeset'):
+                return (x[0], arc(x[1]))
+            if x[0] in ('map', 'btreemap'):
+                return (x[0], x[1], arc(x[2]))
+            if x[0] in ('path', 'stdstring', 'bytesvec'):
+                return ('arc', x)
+            raise ValueError('rust_wrapper_arc on %r: resolve.rs panics' % (x,))
+        r = arc(r)
+    return r
+
+
+def rty_txt(r):
+    if r[0] in ('vec', 'set', 'btreeset', 'arc'):
+        return r[0] + ' ' + rty_txt(r[1])
+    if r[0] in ('map', 'btreemap'):
+        return r[0] + ' ' + rty_txt(r[1]) + ' ' + rty_txt(r[2])
+    if r[0] == 'path':
+        return 'path ' + r[1]
+    return r[0]
+
+
+def lit_toks(sch, lit, doc, const_index):
+    """literal AST with paths resolved the way resolve.rs lower_path does (Value namespace: consts, enum members)"""
+    k = lit[0]
+    if k == 'int':
+        return ['i%d' % lit[1]]
+    if k == 'bool':
+        return ['b%d' % (1 if lit[1] else 0)]
+    if k == 'dbl':
+        return ['f' + lit[1].encode('utf-8').hex()]
+    if k == 'str':
+        return ['s' + (lit[1].encode('utf-8').hex() or '-')]
+    if k == 'id':
+        g = find_const(sch, lit[1], doc)
+        if g is not None:
+            return ['c%d' % const_index[g]]
+        parts = lit[1].split('.')
+        ename, mem = '.'.join(parts[:-1]), parts[-1]
+        ge = ename if ename in sch.types else doc.name + '.' + ename
+        d = sch.types.get(ge)
+        if d and d['kind'] == 'enum':
+            for i, (n, _) in enumerate(d['members']):
+                if n == mem:
+                    return ['m:%s:%d' % (ge, i)]
+        raise ValueError('unknown identifier ' + lit[1])
+    if k == 'list':
+        out = ['L%d' % len(lit[1])]
+        for x in lit[1]:
+            out += lit_toks(sch, x, doc, const_index)
+        return out
+    if k == 'map':
+        out = ['M%d' % len(lit[1])]
+        for a, b in lit[1]:
+            out += lit_toks(sch, a, doc, const_index) + lit_toks(sch, b, doc, const_index)
+        return out
+    raise ValueError(lit)
+
+
+def lschema_txt(sch):
+    """one line per item of schema.txt (same order) + one `lconst` line per const"""
+    const_index = {g: i for i, g in enumerate(sch.consts)}
+    out = []
+    for n in sch.order:
+        d = sch.types[n]
+        fl = d.get('flags') or '-'
+        if d['kind'] == 'struct':
+            parts = ['lstruct', n, fl, str(len(d['fields']))]
+            for f in d['fields']:
+                r = rty_tags(lowered_rty(f['ty']), f.get('ann') or {})
+                lt = '-' if f['lit'] is None else ','.join(lit_toks(sch, f['lit'], f['doc'], const_index))
+                parts += [str(f['id']), 'req' if f['req'] == 'required' else 'opt', f['name'].encode('utf-8').hex() or '-',
+                          rty_txt(r), lt]
+            out.append(' '.join(parts))
+        elif d['kind'] == 'union':
+            parts = ['lunion', n, fl, str(len(d['variants']))]
+            for v in d['variants']:
+                parts += [str(v['id']), rty_txt(lowered_rty(v['ty']))]
+            out.append(' '.join(parts))
+        elif d['kind'] == 'enum':
+            out.append(' '.join(['lenum', n, str(len(d['members']))] + [str(v) for _, v in d['members']]))
+        else:
+            out.append('ltypedef %s %s' % (n, rty_txt(lowered_rty(d['ty']))))
+    for g, (cty, clit, cdoc) in sch.consts.items():
+        r = lowered_rty(cty)
+        out.append('lconst %s %s %s' % (g, rty_txt(r), ','.join(lit_toks(sch, clit, cdoc, const_index))))
+    return '\n'.join(out) + '\n'
+
+
+def lowered_rty(t, hash_key=False):
+    """resolve.rs lower_type / lower_type_for_hash_key, from the lowered schema type: string -> FastStr, binary -> Bytes,
+    double -> F64, but OrderedF64 inside a set element / map key (also below lists / sets nested in the key)"""
+    k = t[0]
+    if k == 'double':
+        return ('of64',) if hash_key else ('f64',)
+    if k == 'binary':
+        return ('bytes',)
+    if k == 'list':
+        return ('vec', lowered_rty(t[1], hash_key))
+    if k == 'set':
+        return ('set', lowered_rty(t[1], True))
+    if k == 'map':
+        return ('map', lowered_rty(t[1], True), lowered_rty(t[2], False))
+    if k == 'ref':
+        return ('path', t[1])
+    return (k,)
+
+
+def ty_idl_lowered(t):
+    """IDL spelling of a lowered schema type (for messages)"""
+    if t[0] in ('list', 'set'):
+        return '%s<%s>' % (t[0], ty_idl_lowered(t[1]))
+    if t[0] == 'map':
+        return 'map<%s, %s>' % (ty_idl_lowered(t[1]), ty_idl_lowered(t[2]))
+    if t[0] == 'ref':
+        return t[1]
+    return t[0]
